@@ -32,7 +32,7 @@ claim("C10", "other",
       "Not decided: hash-map semantics, order independence of merging." + TB,
       "path counting over the loop's acyclic body", "DESIGN §4 C10")
 claim("C12", "proof",
-      "Every natural loop reachable from gather_fibex_data is classified: driven by a finite std/quick-xml iterator whose None arm leaves, or an XML event pump whose end-of-input arm leaves the loop (LOOP-E); no recursion; no deny-listed panicking callee is reachable. Termination and refusal-not-panic are visible in code shape on every path, so a per-loop/per-site proof obligation covers every file content.",
+      "Every natural loop reachable from gather_fibex_data is classified: driven by a finite std/quick-xml iterator whose None arm leaves, or an XML event pump whose end-of-input arm leaves the loop (LOOP-E); no recursion; no deny-listed panicking callee is reachable; every Assert/index obligation of the module (attr_opt's subtractions and indexings, the line/column counters) is discharged by guard facts. Termination and refusal-not-panic are visible in code shape on every path, so a per-loop/per-site proof obligation covers every file content.",
       "Not decided: progress and internal panics of quick-xml (trusted library), allocation failure." + TB,
       "MIR natural-loop classification (LOOP-E) + call-graph deny-list", "DESIGN §4 C12")
 claim("C13", "other",
@@ -44,5 +44,18 @@ claim("C14", "other",
       "Not decided yet: the bit-level decode/encode tables (engine layer)." + TB,
       "compiler-evaluated constants vs spec table", "DESIGN §4 C14")
 
-for _p in ["C03","C04","C09","C11","C15","C16","C17","C18","C19"]:
+claim("C17", "proof",
+      "TERM + PANIC: the abstract interpreter computes seconds and microseconds as linear terms over (x div D) and (x mod D) and proves seconds*10^6 + microseconds = U*x and microseconds <= 999999 from x = D*(x div D) + (x mod D), for every x with whole seconds below 2^32; every overflow / division obligation of both constructors is discharged by interval arithmetic. The functions are straight-line arithmetic, so the term identity covers all inputs.",
+      "Axioms: MIR integer semantics of the dev profile (checked arithmetic)." + TB,
+      "abstract interpretation: linear terms with quotient/remainder symbols + interval discharge of Assert terminators", "DESIGN §4 C17")
+claim("C18", "proof",
+      "TAB: on every partition (kind x fixed_point presence x value variant x offset variant) to_real_value returns Some exactly when the kind is a fixed-point kind, fixed-point data is present and the value is an 8..64-bit integer; PANIC: no panic-capable site remains reachable in to_real_value/log_v/value_as_f64 for an arbitrary argument; TERM: the result term is trunc_u64(f64(value)*f64(quantization)) combined with sext64(offset) by a wrapping addition, which equals the stated sum whenever it lies in 0..2^63.",
+      "Not decided: IEEE rounding of the product (float semantics not modelled; the term shape is compared, not values)." + TB,
+      "abstract interpretation with trace partitioning on enum discriminants; symbolic float/int conversion terms", "DESIGN §4 C18")
+claim("C19", "proof",
+      "CONS: on every Ok exit of the extraction the remainder starts exactly `size` bytes after the field start and the text is the take_while(0,size,byte!=0) content or its valid_up_to prefix, as linear identities over (base, offset, length) slices; HINT: every Err exit is Incomplete, only when fewer than `size` bytes are available, with 1 <= needed <= shortfall; from_utf8_unchecked only on the validated prefix; PANIC obligations discharged; the four id fields use size 4.",
+      "Trusted: nom's take_while_m_n / take streaming contracts, std from_utf8 (valid_up_to = longest valid prefix)." + TB,
+      "abstract interpretation over slices with linear byte accounting + nom combinator contracts", "DESIGN §4 C19")
+
+for _p in ["C03","C04","C09","C11","C15","C16"]:
     NOT_YET[_p] = "check not armed yet in this build round (needs the abstract-interpretation layer, DESIGN §7 steps 3-5); no verdict is claimed until the rule runs"
